@@ -368,6 +368,9 @@ func c07Wide(args []string) error {
 			}
 			ev := map[string]interface{}{"ev": "op", "op": op, "target": tg.name, "wx": wx, "wy": wy, "wz": wz,
 				"x": limbs(x, wx), "y": limbs(y, wy)}
+			if op == "udiv" && x.BitLen() == wx && new(big.Int).Add(x, big.NewInt(1)).BitLen() == wx+1 {
+				ev["allones"] = 1
+			}
 			if both {
 				mask := new(big.Int).Sub(new(big.Int).Lsh(big.NewInt(1), uint(wz)), big.NewInt(1))
 				ev["z"] = limbs(new(big.Int).And(got, mask), wz)
@@ -379,6 +382,28 @@ func c07Wide(args []string) error {
 			tr.put(ev)
 		}
 		out.put(res)
+	}
+	// the dividend 2^w - 1 on the unsigned dividers of both targets, against every divisor below 2100 (and a few large
+	// ones): the input class on which the GMW Goldschmidt divider is known to be off by two
+	for _, tg := range targets {
+		for _, w := range []int{9, 10, 12, 16, 24, 32} {
+			c, err := buildOp("udiv", w, w, w, tg.t, true, false)
+			if err != nil {
+				return err
+			}
+			x := new(big.Int).Sub(new(big.Int).Lsh(big.NewInt(1), uint(w)), big.NewInt(1))
+			mask := new(big.Int).Set(x)
+			for d := 1; d < 2100 && d < 1<<uint(w); d++ {
+				y := big.NewInt(int64(d))
+				got, err := computeXY(c, w, x, y)
+				if err != nil {
+					return err
+				}
+				tr.put(map[string]interface{}{"ev": "op", "op": "udiv", "target": tg.name, "wx": w, "wy": w, "wz": w, "allones": 1,
+					"x": limbs(x, w), "y": limbs(y, w), "z": limbs(new(big.Int).And(got, mask), w),
+					"r": limbs(new(big.Int).And(new(big.Int).Rsh(got, uint(w)), mask), w)})
+			}
+		}
 	}
 	return nil
 }
